@@ -40,7 +40,12 @@ def index_run(ctx, rule):
 
     for f in mod.funcs.values():
         if any(isinstance(n, ast.Call) and norm(n.func).endswith("dump") for n in walk_own(f.node)) and f.cls is None:
-            return normal(repo, f, keep=lambda callee: any(isinstance(x, ast.Call) and "search" in norm(x.func) for x in ast.walk(callee.node)))
+            g_ = normal(repo, f, keep=lambda callee: any(isinstance(x, ast.Call) and "search" in norm(x.func) for x in ast.walk(callee.node)))
+            if any(isinstance(st_, ast.Assign) and isinstance(st_.value, ast.Call) and isinstance(st_.value.func, ast.Attribute) and st_.value.func.attr == "tell" for st_ in g_.node.body):
+                from ..core import inline_pure_temps, rotate_primed_loops
+
+                g_ = inline_pure_temps(rotate_primed_loops(g_))  # `nxt = h.tell()` before the loop and at the end of its body: the tell() at the top of each iteration
+            return g_
     raise AnalysisError(rule, mod.relpath, "cannot find the function that writes the index (pickle dump)")
 
 
@@ -231,6 +236,8 @@ def r03_3(ctx, run, info):
         return out
 
     cols = sorted(source_cols(site.qs) | source_cols(site.qe))
+    if not cols:
+        raise AnalysisError("R03.3", f.where(), f"cannot trace the bounds `{site.qs}` / `{site.qe}` searched for a bare contig path back to columns of the record (they may be handed in by the caller)")
     ctx.check(cols == [7, 8], "R03.3", f.where(), "for a bare contig path the interval searched is [path start, path end) (columns 8 and 9)", key_of(f, f"bare-contig-query:{cols}"), columns=cols)
     # every path element is converted: the loop over the split path has no filter other than skipping the orientation signs
     outer = [n for n in f.node.body if isinstance(n, ast.For)]
